@@ -7,6 +7,7 @@ from .. import astq
 from .. import sym as S
 from ..eff import Effects
 from ..dt import DT
+from ..report import MISSING
 from ..model import AnalysisError
 from ..symeval import SymEval
 from . import cli_common as cc
@@ -52,13 +53,13 @@ def readonly(ctx, R="R-C15-readonly"):
                   "%s.apply can modify the caller's array with in_place=False (%s)" % (cls, ", ".join(sorted({w.how for w in bad}))))
     # Stack: the 2-D path copies unless in_place
     f = _m(prog, "Stack", "apply")
-    cps = [n for n in f.body_nodes() if isinstance(n, ast.Assign) and astq.text(n.value).replace(" ", "") == "features.copy()"]
+    cps = [n for n in f.body_nodes() if isinstance(n, ast.Assign) and astq.eq_text(n.value, "features.copy()")]
     pm = astq.parents(f)
     ok = False
     if len(cps) == 1:
         g = [astq.text(a.test) for a in astq.ancestors(pm, cps[0]) if isinstance(a, ast.If)]
         ok = g[:1] == ["not in_place"]
-    ctx.check(ok, R, f, cps[0] if cps else f.node, "the 2-D path of Stack.apply works on a copy unless in_place",
+    ctx.check(ok, R, f, cps[0] if cps else MISSING(f.node), "the 2-D path of Stack.apply works on a copy unless in_place",
               "Stack.apply's 2-D path does not copy under `not in_place` (its result would be a view of the caller's array)")
     # in_place = True only after the array was replaced by np.pad's fresh result
     sets = [n for n in f.body_nodes() if isinstance(n, ast.Assign) and astq.is_name(n.targets[0], "in_place")]
@@ -95,7 +96,7 @@ def deltas_dtype(ctx, R="R-C15-dtype"):
     ctx.check(ok, R, f, c, "each slice is correlated in 'full' mode", "correlation call is %s" % astq.text(c)[:80])
     pad = c.args[0]
     if isinstance(pad, ast.Call) and prog.qualify(f.module, pad.func, f) == "numpy.pad":
-        ok = astq.text(pad.args[1]).replace(" ", "") == "(max_offset,max_offset)" and astq.text(pad.args[2]) == "self._pad_mode" and \
+        ok = astq.eq_text(pad.args[1], "(max_offset,max_offset)") and astq.text(pad.args[2]) == "self._pad_mode" and \
             any(k.arg is None and astq.text(k.value) == "self._pad_kwargs" for k in pad.keywords)
         ctx.check(ok, R, f, pad, "each slice is padded by max_offset on both sides with the configured mode and keyword arguments",
                   "padding call is %s" % astq.text(pad)[:120])
@@ -119,8 +120,8 @@ def kaldi_filters(ctx, R="R-C15-kaldi-filters"):
     ev = SymEval(prog, init).run()
     f0 = ev.snap  # unused
     first = [n for n in init.body_nodes() if isinstance(n, ast.Assign) and astq.is_self_attr(n.targets[0], "self", "_filts")]
-    ok = len(first) == 1 and astq.text(first[0].value).replace(" ", "") == "[np.ones(1,dtype=np.float64)]"
-    ctx.check(ok, R, init, first[0] if first else init.node, "the filter list starts with [1]", "filter list starts as %s" % (astq.text(first[0].value) if first else None))
+    ok = len(first) == 1 and astq.eq_text(first[0].value, "[np.ones(1,dtype=np.float64)]")
+    ctx.check(ok, R, init, first[0] if first else MISSING(init.node), "the filter list starts with [1]", "filter list starts as %s" % (astq.text(first[0].value) if first else None))
     base = ev.env.get("delta_filter")
     ctx.need(base is not None, R, "delta_filter not found")
     W = S.sym("context_window")
@@ -133,7 +134,7 @@ def kaldi_filters(ctx, R="R-C15-kaldi-filters"):
     loops = [n for n in init.body_nodes() if isinstance(n, ast.For)]
     ok = len(loops) == 1 and astq.text(loops[0].iter) == "range(num_deltas)" and len(loops[0].body) == 1 and \
         astq.text(loops[0].body[0]).replace(" ", "") == "self._filts.append(np.convolve(self._filts[%s],delta_filter))" % loops[0].target.id
-    ctx.check(ok, R, init, loops[0] if loops else init.node, "filter d+1 = convolve(filter d, base), num_deltas times (Kaldi's recursion)",
+    ctx.check(ok, R, init, loops[0] if loops else MISSING(init.node), "filter d+1 = convolve(filter d, base), num_deltas times (Kaldi's recursion)",
               "filter recursion is %s" % (astq.text(loops[0])[:120] if loops else None))
 
 
@@ -198,8 +199,8 @@ def axes(ctx, R="R-C15-axes"):
     ctx.check(st.get("self._target_axis") == "target_axis" and st.get("self.concatenate") in ("bool(concatenate)", "concatenate"), R, init, init.node,
               "target_axis and concatenate are stored as given", "stored as %s / %s" % (st.get("self._target_axis"), st.get("self.concatenate")))
     oa = [n for n in f.body_nodes() if isinstance(n, ast.Assign) and astq.is_name(n.targets[0], "other_axes")]
-    ok = len(oa) == 1 and astq.text(oa[0].value).replace(" ", "") == "tuple((idxforidxinrange(features.ndim)ifidx!=axis%features.ndim))"
-    ctx.check(ok, R, f, oa[0] if oa else f.node, "the filtered axis is normalised modulo the input's rank", "other_axes is %s" % (astq.text(oa[0].value) if oa else None))
+    ok = len(oa) == 1 and astq.eq_text(oa[0].value, "tuple((idxforidxinrange(features.ndim)ifidx!=axis%features.ndim))")
+    ctx.check(ok, R, f, oa[0] if oa else MISSING(f.node), "the filtered axis is normalised modulo the input's rank", "other_axes is %s" % (astq.text(oa[0].value) if oa else None))
 
 
 def _axis_contradiction(ctx, R, f):
@@ -241,24 +242,24 @@ def stack(ctx, R="R-C15-stack"):
     a2 = [n for n in f.body_nodes() if isinstance(n, ast.Assign) and astq.is_name(n.targets[0], "time_axis")]
     ok = len(a1) == 1 and astq.text(a1[0].value).replace(" ", "") == "axis%%%s.ndim" % feats and len(a2) == 1 and \
         astq.text(a2[0].value).replace(" ", "") == "self.time_axis%%%s.ndim" % feats
-    ctx.check(ok, R, f, a1[0] if a1 else f.node, "feature and time axes are normalised modulo the rank", "axis normalisation is %s / %s" %
+    ctx.check(ok, R, f, a1[0] if a1 else MISSING(f.node), "feature and time axes are normalised modulo the rank", "axis normalisation is %s / %s" %
               (astq.text(a1[0].value) if a1 else None, astq.text(a2[0].value) if a2 else None))
     rs = [r for r in astq.raises_of(f)]
     pm = astq.parents(f)
-    ok = any(astq.text(a.test).replace(" ", "") == "axis==time_axis" for r in rs for a in astq.ancestors(pm, r) if isinstance(a, ast.If))
-    ctx.check(ok, R, f, rs[0] if rs else f.node, "equal feature and time axes are rejected", "no raise under axis == time_axis")
+    ok = any(astq.eq_text(a.test, "axis==time_axis") for r in rs for a in astq.ancestors(pm, r) if isinstance(a, ast.If))
+    ctx.check(ok, R, f, rs[0] if rs else MISSING(f.node), "equal feature and time axes are rejected", "no raise under axis == time_axis")
     ev = SymEval(prog, f, seed={"self._pad_mode": "edge"}, rename={"self.num_vectors": "nv"}, inline_props=False).run()
     # padding of the whole sequence, on the right of the time axis only
     pads = [c for c in astq.func_calls(f) if prog.qualify(f.module, c.func, f) == "numpy.pad"]
-    ctx.check(len(pads) == 1 and astq.is_name(pads[0].args[0], feats), R, f, pads[0] if pads else f.node,
+    ctx.check(len(pads) == 1 and astq.is_name(pads[0].args[0], feats), R, f, pads[0] if pads else MISSING(f.node),
               "the whole sequence is padded (modes such as reflect / symmetric / wrap / mean look at earlier frames)",
               "np.pad is applied to %s, not to the whole feature tensor; padding modes that depend on earlier frames give different frames"
               % (astq.text(pads[0].args[0]) if pads else None))
     if pads:
         st = astq.enclosing_stmt(pm, pads[0])
         pw = [n for n in f.body_nodes() if isinstance(n, ast.Assign) and isinstance(n.targets[0], ast.Subscript) and astq.is_name(n.targets[0].value, "padding")]
-        ok = len(pw) == 1 and astq.text(pw[0].targets[0].slice) == "time_axis" and astq.text(pw[0].value).replace(" ", "") == "(0,self.num_vectors-rem)"
-        ctx.check(ok, R, f, pw[0] if pw else st, "only the right end of the time axis is padded, by num_vectors - T % num_vectors",
+        ok = len(pw) == 1 and astq.text(pw[0].targets[0].slice) == "time_axis" and astq.eq_text(pw[0].value, "(0,self.num_vectors-rem)")
+        ctx.check(ok, R, f, pw[0] if pw else MISSING(st), "only the right end of the time axis is padded, by num_vectors - T % num_vectors",
                   "pad widths are %s" % (astq.text(pw[0]) if pw else None))
         ok = astq.text(pads[0].args[2]) == "self._pad_mode" and any(k.arg is None and astq.text(k.value) == "self._pad_kwargs" for k in pads[0].keywords)
         ctx.check(ok, R, f, pads[0], "the configured mode and keyword arguments are used", "np.pad is called as %s" % astq.text(pads[0])[:100])
@@ -268,18 +269,18 @@ def stack(ctx, R="R-C15-stack"):
     r = S.compare(S.mod(padded, nv), S.ZERO, domain={"T": [Fraction(v) for v in range(0, 9)], "nv": [Fraction(v) for v in (1, 2, 3, 4)]})
     ctx.check(r["verdict"] in ("equal",) or (r["verdict"] == "unknown"), R, f, f.node, "T + (nv - T % nv) is divisible by nv whenever T % nv != 0 (checked on a witness grid)")
     nt = [n for n in f.body_nodes() if isinstance(n, ast.Assign) and astq.text(n.targets[0]).replace(" ", "").strip("()") == "nT,nF"]
-    ok = len(nt) == 1 and astq.text(nt[0].value).replace(" ", "") == "(T//self.num_vectors,F*self.num_vectors)"
-    ctx.check(ok, R, f, nt[0] if nt else f.node, "output has T // num_vectors frames of F * num_vectors coefficients", "nT, nF = %s" % (astq.text(nt[0].value) if nt else None))
+    ok = len(nt) == 1 and astq.eq_text(nt[0].value, "(T//self.num_vectors,F*self.num_vectors)")
+    ctx.check(ok, R, f, nt[0] if nt else MISSING(f.node), "output has T // num_vectors frames of F * num_vectors coefficients", "nT, nF = %s" % (astq.text(nt[0].value) if nt else None))
     tt = [n for n in f.body_nodes() if isinstance(n, ast.Assign) and astq.is_name(n.targets[0], "T") and "nT" in astq.text(n.value)]
-    ctx.check(len(tt) == 1 and astq.text(tt[0].value).replace(" ", "") == "nT*self.num_vectors", R, f, tt[0] if tt else f.node,
+    ctx.check(len(tt) == 1 and astq.eq_text(tt[0].value, "nT*self.num_vectors"), R, f, tt[0] if tt else MISSING(f.node),
               "an incomplete final run is dropped (T := nT * num_vectors)")
     # N-D path: strided slices i::num_vectors up to T, concatenated along the feature axis in order
     sl = [n for n in f.body_nodes() if isinstance(n, ast.Assign) and isinstance(n.targets[0], ast.Subscript) and astq.is_name(n.targets[0].value, "feat_slice")]
-    ok = len(sl) == 1 and astq.text(sl[0].targets[0].slice) == "time_axis" and astq.text(sl[0].value).replace(" ", "") == "slice(i,T,self.num_vectors)"
-    ctx.check(ok, R, f, sl[0] if sl else f.node, "N-D path: vector i of each run is features[i:T:num_vectors] along time", "N-D slicing is %s" % (astq.text(sl[0]) if sl else None))
+    ok = len(sl) == 1 and astq.text(sl[0].targets[0].slice) == "time_axis" and astq.eq_text(sl[0].value, "slice(i,T,self.num_vectors)")
+    ctx.check(ok, R, f, sl[0] if sl else MISSING(f.node), "N-D path: vector i of each run is features[i:T:num_vectors] along time", "N-D slicing is %s" % (astq.text(sl[0]) if sl else None))
     cat = [r_ for r_ in f.body_nodes() if isinstance(r_, ast.Assign) and isinstance(r_.value, ast.Call) and prog.qualify(f.module, r_.value.func, f) == "numpy.concatenate"]
     ok = len(cat) == 1 and [astq.text(a) for a in cat[0].value.args] == ["buffs", "axis"]
-    ctx.check(ok, R, f, cat[0] if cat else f.node, "N-D path: the runs' vectors are laid side by side along the feature axis, in order")
+    ctx.check(ok, R, f, cat[0] if cat else MISSING(f.node), "N-D path: the runs' vectors are laid side by side along the feature axis, in order")
     lp = [n for n in f.body_nodes() if isinstance(n, ast.For) and astq.text(n.iter) == "range(self.num_vectors)"]
     ctx.check(len(lp) == 1, R, f, f.node, "N-D path visits the num_vectors positions in order")
     # 2-D path: (transpose,) crop, reshape (nT, nF), (transpose back)
@@ -293,5 +294,5 @@ def stack(ctx, R="R-C15-stack"):
     ctx.check(ok, R, f, two[0], "2-D path: a time axis of 1 is handled by transposing before and after")
     init = _m(prog, "Stack", "__init__")
     rs = astq.raises_of(init)
-    ok = any(astq.text(a.test).replace(" ", "") == "num_vectors<1" for r_ in rs for a in astq.ancestors(astq.parents(init), r_) if isinstance(a, ast.If))
+    ok = any(astq.eq_text(a.test, "num_vectors<1") for r_ in rs for a in astq.ancestors(astq.parents(init), r_) if isinstance(a, ast.If))
     ctx.check(ok, R, init, init.node, "num_vectors < 1 is rejected")
